@@ -181,8 +181,79 @@ func c15FilesAndChain(cases string, res *Result) {
 	}
 }
 
+// c15SearchPaths: one FileSystemLoader with two search paths that both hold the name; the copy in the first path is
+// removed (the copy behind it is older, of the same age, or newer), comes back, changes. With the cache off or
+// auto-reload on every call sees the files as they are.
+func c15SearchPaths(cases string, res *Result) {
+	root := filepath.Join(filepath.Dir(cases), "fspaths")
+	defer os.RemoveAll(root)
+	for _, mode := range []string{"cache-off", "auto-reload", "development-mode"} {
+		for _, behind := range []int64{-100, 0, 100} {
+			os.RemoveAll(root)
+			p1, p2 := filepath.Join(root, "override"), filepath.Join(root, "default")
+			os.MkdirAll(p1, 0o755)
+			os.MkdirAll(p2, 0o755)
+			write := func(dir, src string, at int64) {
+				f := filepath.Join(dir, "t.twig")
+				os.WriteFile(f, []byte(src), 0o644)
+				t := time.Unix(1700000000+at, 0)
+				os.Chtimes(f, t, t)
+			}
+			write(p1, "override-1", 0)
+			write(p2, "default-1", behind)
+			eng := twig.New()
+			eng.RegisterLoader(twig.NewFileSystemLoader([]string{p1, p2}))
+			switch mode {
+			case "cache-off":
+				eng.SetCache(false)
+			case "auto-reload":
+				eng.SetAutoReload(true)
+			default:
+				eng.SetDevelopmentMode(true)
+				twig.SetDebugLevel(twig.DebugOff)
+			}
+			c := Case{"stream": "search-paths", "mode": mode, "age of the copy in the second path": behind}
+			res.Hist["stream:search-paths"]++
+			step := func(what, want string) bool {
+				res.Evaluations++
+				got, err := eng.Render("t.twig", nil)
+				if err != nil {
+					got = "error: " + err.Error()
+				}
+				if got != want {
+					res.add(Finding{Kind: "oracle", Where: "search-paths: " + what, Case: c, Expected: want, Observed: got,
+						Detail: "one FileSystemLoader with the search paths override, default; history: both hold t.twig, the override is removed, comes back, changes, the default changes"})
+					return false
+				}
+				return true
+			}
+			if !step("both paths hold the name", "override-1") || !step("again", "override-1") {
+				continue
+			}
+			os.Remove(filepath.Join(p1, "t.twig"))
+			if !step("the copy in the first path is removed", "default-1") || !step("again", "default-1") {
+				continue
+			}
+			write(p2, "default-2", behind+200)
+			if !step("the copy in the second path changed", "default-2") {
+				continue
+			}
+			// (while the second path's copy exists the loader goes on reading it -- it remembers where it found a name;
+			// the property speaks of loaders, not of the search paths inside one, so nothing is demanded at this point)
+			write(p1, "override-2", 400)
+			os.Remove(filepath.Join(p2, "t.twig"))
+			if !step("the first path has the name again and the copy in the second path is removed", "override-2") {
+				continue
+			}
+			write(p1, "override-3", 600)
+			step("the copy in the first path changed", "override-3")
+		}
+	}
+}
+
 func runC15(cases string, res *Result) {
 	c15FilesAndChain(cases, res)
+	c15SearchPaths(cases, res)
 	// the two loader kinds must be what the engine distinguishes
 	if _, ok := twig.Loader(&c15TSLoader{}).(twig.TimestampAwareLoader); !ok {
 		panic("c15TSLoader does not implement twig.TimestampAwareLoader")
